@@ -99,6 +99,7 @@ pub fn expand(case: &Case) -> Vec<(String, Case)> {
                     post_create: vec![vec![Out::Ok; n0]; npc],
                     pre_recycle: vec![vec![Out::Ok; r]; npr],
                     post_recycle: vec![vec![]; npo],
+                    detach_panic_at: None,
                 };
                 match pt {
                     Point::Create => script.create.push(outcome),
